@@ -672,10 +672,17 @@ class C25(Prop):
                 for k, v in (c["env"] or []):
                     if dump["env"].get(k) != hx(v):
                         return ("env-verbatim", f"{k}={v!r} reached the command as {dump['env'].get(k)!r} ({c['conn']})")
+                # On the queue-manager path the service template renders export K="v" BEFORE the cd/export/command line:
+                # a value with an unbalanced quote swallows (part of) that line, so the damage done by the value can show
+                # as a wrong cwd or argv while the value itself arrives (create_command exports it again).  The cause is
+                # the value's interpretation, i.e. the env-verbatim clause (seed 45: b2='BBx"$HOME\'' ate `cd '…' &&`).
+                tmpl = c["conn"] == "qm" and any(self._cls(v) == "dq-special" for _, v in (c["env"] or []))
                 if o.get("wd") and dump["cwd"] != o["wd"]:
-                    return ("workdir-verbatim", f"cwd {dump['cwd']!r}, asked {o['wd']!r} ({c['conn']})")
+                    return ("env-verbatim" if tmpl else "workdir-verbatim",
+                            f"cwd {dump['cwd']!r}, asked {o['wd']!r} ({c['conn']})" +
+                            (" — the template's export line of a value with quotes swallowed the cd" if tmpl else ""))
                 if dump["argv"] != [hx(a) for a in c["args"]]:
-                    return ("argv-verbatim", f"argv {dump['argv']} for {c['args']!r} ({c['conn']})")
+                    return ("env-verbatim" if tmpl else "argv-verbatim", f"argv {dump['argv']} for {c['args']!r} ({c['conn']})")
             if dump is None or o.get("rc") != c["rc"] or o.get("count") != 1:
                 bad = next((v for _, v in (c["env"] or []) if self._cls(v) == "dq-special"), None)
                 clause = "env-verbatim" if bad is not None else \
